@@ -349,3 +349,124 @@ Lemma accepted_run :
      WC (LLine (LnErr 410)); WC LReqList]%string = Some w
   /\ ph (cl w) = PListWait 0.
 Proof. eexists; split; vm_compute; reflexivity. Qed.
+
+(* ---------- progress on an open stream: the server's pending changes, delivered in order, are all
+   accepted and yielded, and then nothing is left above the client's position ---------- *)
+
+Definition no_bm (l : list change) : Prop := forall c, In c l -> c_typ c <> TBookmark.
+
+Lemma no_bm_step : forall n w l w', no_bm (log (sv w)) -> wstep n w l = Some w' -> no_bm (log (sv w')).
+Proof.
+  intros n [c s] l w' H Hw. destruct l as [l | t nm | |]; cbn in Hw.
+  - destruct (cstep n c l); [| discriminate]. destruct (sstep s l) eqn:Es; [| discriminate].
+    injection Hw as <-. cbn. destruct (sstep_log _ _ _ Es) as [-> _]. exact H.
+  - destruct t; try discriminate; injection Hw as <-; cbn; intros ch [<- | Hc]; cbn; try discriminate; apply H; assumption.
+  - injection Hw as <-. exact H.
+  - injection Hw as <-. exact H.
+Qed.
+
+Lemma no_bm_run : forall n tr w w', no_bm (log (sv w)) -> wrun n w tr = Some w' -> no_bm (log (sv w')).
+Proof.
+  induction tr as [| l tr IH]; intros w w' H Hr; cbn in Hr.
+  - injection Hr as <-; exact H.
+  - destruct (wstep n w l) eqn:E; [| discriminate]. eapply IH; [| eassumption]. eapply no_bm_step; eassumption.
+Qed.
+
+Fixpoint count_above (l : list change) (v : Z) : nat :=
+  match l with [] => O | c :: l' => (if Z.ltb v (c_rv c) then 1 else 0) + count_above l' v end.
+
+Lemma count_above_mono : forall l v v', v <= v' -> (count_above l v' <= count_above l v)%nat.
+Proof.
+  induction l as [| c l IH]; intros v v' H; cbn; [lia |].
+  specialize (IH _ _ H). destruct (Z.ltb v' (c_rv c)) eqn:E1; destruct (Z.ltb v (c_rv c)) eqn:E2; try lia.
+  all: try (apply Z.ltb_lt in E1; apply Z.ltb_ge in E2; lia).
+Qed.
+
+Lemma count_above_drop : forall l v c, In c l -> v < c_rv c -> (count_above l (c_rv c) < count_above l v)%nat.
+Proof.
+  induction l as [| a l IH]; intros v c Hc Hv; cbn; [contradiction |].
+  destruct Hc as [<- | Hc].
+  - rewrite Z.ltb_irrefl. assert (E : Z.ltb v (c_rv a) = true) by (apply Z.ltb_lt; assumption). rewrite E.
+    pose proof (count_above_mono l v (c_rv a) ltac:(lia)). lia.
+  - specialize (IH _ _ Hc Hv).
+    destruct (Z.ltb (c_rv c) (c_rv a)) eqn:E1; destruct (Z.ltb v (c_rv a)) eqn:E2; try lia.
+    all: try (apply Z.ltb_lt in E1; apply Z.ltb_ge in E2; lia).
+Qed.
+
+Fixpoint drain (fuel : nat) (l : list change) (v : Z) : list change :=
+  match fuel with
+  | O => []
+  | S f => match next_after l v with Some c => c :: drain f l (c_rv c) | None => [] end
+  end.
+
+Definition deliver (cs : list change) : list wlabel :=
+  flat_map (fun c => [WC (LLine (LnEv (c_typ c) (Some (c_rv c)) (c_name c)));
+                      WC (LYield (YEv (c_typ c) (Some (c_rv c)) (c_name c)))]) cs.
+
+Lemma drain_run : forall n fuel l cu ho b v pa, below l b -> no_bm l -> (count_above l v <= fuel)%nat ->
+  exists v', wrun n {| cl := mk (POpen (Some v)) pa false; sv := {| log := l; cur := cu; horizon := ho; cursor := Some v |} |}
+                    (deliver (drain fuel l v))
+             = Some {| cl := mk (POpen (Some v')) pa false; sv := {| log := l; cur := cu; horizon := ho; cursor := Some v' |} |}
+             /\ next_after l v' = None /\ v <= v'.
+Proof.
+  induction fuel as [| f IH]; intros l cu ho b v pa Hb Hnb Hc.
+  - exists v. cbn. split; [reflexivity |]. split; [| lia].
+    pose proof (next_after_spec l b v Hb) as Hs. destruct (next_after l v) as [c |]; [| reflexivity].
+    destruct Hs as [Hin [Hlt _]]. pose proof (count_above_drop l v c Hin Hlt). lia.
+  - cbn [drain]. pose proof (next_after_spec l b v Hb) as Hs. destruct (next_after l v) as [c |] eqn:En.
+    + destruct Hs as [Hin [Hlt _]].
+      assert (Hc' : (count_above l (c_rv c) <= f)%nat) by (pose proof (count_above_drop l v c Hin Hlt); lia).
+      destruct (IH l cu ho b (c_rv c) pa Hb Hnb Hc') as [v' [Hrun [Hnone Hle]]].
+      exists v'. split; [| split; [assumption | lia]].
+      cbn [deliver flat_map app]. fold (deliver (drain f l (c_rv c))).
+      assert (Hstep1 : wstep n {| cl := mk (POpen (Some v)) pa false; sv := {| log := l; cur := cu; horizon := ho; cursor := Some v |} |}
+                          (WC (LLine (LnEv (c_typ c) (Some (c_rv c)) (c_name c))))
+               = Some {| cl := mk (PGot (Some (c_rv c)) (YEv (c_typ c) (Some (c_rv c)) (c_name c))) pa false;
+                         sv := {| log := l; cur := cu; horizon := ho; cursor := Some (c_rv c) |} |}).
+      { unfold wstep. cbn [cl sv]. unfold cstep; cbn [ph paused stopper mk adv]. unfold sstep; cbn [cursor log cur horizon].
+        rewrite En. rewrite Z.eqb_refl, String.eqb_refl.
+        assert (E : etype_eqb (c_typ c) (c_typ c) = true) by (apply etype_eqb_eq; reflexivity). rewrite E. cbn.
+        specialize (Hnb c Hin). destruct (c_typ c); try reflexivity. contradiction. }
+      assert (Hstep2 : wstep n {| cl := mk (PGot (Some (c_rv c)) (YEv (c_typ c) (Some (c_rv c)) (c_name c))) pa false;
+                                  sv := {| log := l; cur := cu; horizon := ho; cursor := Some (c_rv c) |} |}
+                          (WC (LYield (YEv (c_typ c) (Some (c_rv c)) (c_name c))))
+               = Some {| cl := mk (POpen (Some (c_rv c))) pa false;
+                         sv := {| log := l; cur := cu; horizon := ho; cursor := Some (c_rv c) |} |}).
+      { unfold wstep. cbn [cl sv]. unfold cstep; cbn [ph paused stopper mk]. cbn [sstep].
+        assert (E : etype_eqb (c_typ c) (c_typ c) = true) by (apply etype_eqb_eq; reflexivity). rewrite E.
+        rewrite String.eqb_refl. cbn. rewrite Z.eqb_refl. reflexivity. }
+      cbn [wrun]. rewrite Hstep1. cbn [wrun]. rewrite Hstep2. exact Hrun.
+    + exists v. cbn. split; [reflexivity |]. split; [assumption | lia].
+Qed.
+
+(* On an open, un-paused stream the schedule "the server sends what it has, in order" is accepted to the
+   end, every line is yielded, and afterwards no change of the log lies above the client's position:
+   together with no_change_skipped, every change the server made has reached the consumer. *)
+Theorem stream_catches_up : forall n pa v0 tr w rv,
+  wrun n (winit pa v0) tr = Some w -> ph (cl w) = POpen rv -> stopper (cl w) = false ->
+  exists v tr' w' v', rv = Some v /\
+    wrun n w tr' = Some w' /\ ph (cl w') = POpen (Some v') /\ log (sv w') = log (sv w) /\
+    (forall ch, In ch (log (sv w')) -> c_rv ch <= v') /\
+    (forall ch, In ch (log (sv w')) -> covered (tr ++ tr') ch).
+Proof.
+  intros n pa v0 tr [[p pau st] [l cu ho cs]] rv Hr Hp Hst. cbn in Hp, Hst. subst p st.
+  pose proof (winv_run n tr [] _ _ (winv_init pa v0) Hr) as [Hb [_ Hstr]]. cbn in Hb, Hstr.
+  destruct (Hstr rv (or_introl eq_refl)) as [v [-> Hcs]]. cbn in Hcs. subst cs.
+  assert (Hnb : no_bm l).
+  { pose proof (no_bm_run n tr _ _ (fun c (H : In c (log (sv (winit pa v0)))) => match H with end) Hr) as H. exact H. }
+  destruct (drain_run n (List.length l) l cu ho cu v pau Hb Hnb) as [v' [Hrun [Hnone Hle]]].
+  { clear. induction l as [| c l IH]; cbn; [lia |]. destruct (Z.ltb v (c_rv c)); lia. }
+  exists v, (deliver (drain (List.length l) l v)). eexists. exists v'.
+  split; [reflexivity |]. split; [exact Hrun |]. cbn [cl sv ph log mk]. split; [reflexivity |]. split; [reflexivity |].
+  assert (Hall : forall ch, In ch l -> c_rv ch <= v').
+  { pose proof (next_after_spec l cu v' Hb) as Hs. rewrite Hnone in Hs. exact Hs. }
+  split; [exact Hall |].
+  intros ch Hch.
+  assert (Hr2 : wrun n (winit pa v0) (tr ++ deliver (drain (List.length l) l v)) =
+                Some {| cl := mk (POpen (Some v')) pau false; sv := {| log := l; cur := cu; horizon := ho; cursor := Some v' |} |}).
+  { clear - Hr Hrun. revert Hr Hrun. generalize (winit pa v0). induction tr as [| a tr IH]; intros w0 Hr Hrun; cbn in *.
+    - injection Hr as ->. exact Hrun.
+    - destruct (wstep n w0 a); [| discriminate]. apply IH; assumption. }
+  destruct (no_change_skipped n pa v0 _ _ (Some v') Hr2 eq_refl) as [v2 [E [_ Hcov]]]. injection E as <-.
+  apply Hcov; [exact Hch | apply Hall; exact Hch].
+Qed.
